@@ -25,6 +25,13 @@ Script ops (domain `eq`, trees in the jvtext format):
              answers: a successful copy is equal, structurally complete, disjoint; a failing
              one returns -1, leaves *dst NULL and leaks nothing.
 
+  B a conds mut   the source borrows the names of the members selected by conds from exact-size
+             heap buffers of the driver (JSON_C_OBJECT_ADD_CONSTANT_KEY); after the deep copy no
+             name of the copy may be stored where a name of the source is, nor in a driver
+             buffer, nor be marked constant; the driver then overwrites its buffers in place,
+             destroys the source, poisons and frees the buffers: the copy must dump, serialize,
+             answer lookups and compare exactly as before (ASan watches the freed buffers).
+
 The direct oracle below is a Python statement of the property (denotation equality with
 Python's own float comparison, its own mutation semantics); it does not use the Coq model."""
 import re
@@ -46,7 +53,10 @@ RULE = ("pairs/triples of trees generated independently from small alphabets (so
         "scripted predicates on type, parent type, depth, index / key, call number, every k-th call, with source nodes "
         "carrying application userdata that the callback does or does not take care of; process-wide settings "
         "(json_global_set_string_hash default / perl-like, json_c_set_serialization_double_format) changed at random points "
-        "between building, mutating, deep-copying and comparing the trees, restored after every case; a case is non-trivial when "
+        "between building, mutating, deep-copying and comparing the trees, restored after every case; sources whose member "
+        "names (selected by the same predicates) live in exact-size driver-owned heap buffers (JSON_C_OBJECT_ADD_CONSTANT_KEY), "
+        "with the key pointers of the copy checked against the source's and the buffers, the buffers changed in place, then "
+        "poisoned and freed after the source was destroyed, the copy observed after each step; a case is non-trivial when "
         "the implementation produced a well-formed observation for it; distinct = distinct script line")
 TRUSTED = ["Coq 8.16.1 kernel (coqc), no axioms (Print Assumptions: closed under the global context)",
            "extraction (ExtrOcamlBasic only) + ocaml/mdrv glue (drv_eq.ml, jvtext.ml)",
@@ -653,6 +663,8 @@ def gen_G(rng, out):
 
 # ---- deep copy through a scripted callback -------------------------------------------
 def type_char(v):
+    if v is None:
+        return "n"
     if isinstance(v, list):
         return "a"
     if is_obj(v):
@@ -682,9 +694,9 @@ def atom_match(a, c):
         return c["key"] is not None and c["key"] == unhex(arg)
     if k == "m":
         kk, r = arg.split(",")
-        return int(kk) > 0 and c["n"] % int(kk) == int(r)
+        return c["n"] >= 0 and int(kk) > 0 and c["n"] % int(kk) == int(r)
     if k == "c":
-        return c["n"] == int(arg)
+        return c["n"] >= 0 and c["n"] == int(arg)
     return False
 
 
@@ -782,6 +794,66 @@ def gen_Y(rng, out):
         kind = "Y-fails"
     out.append(("eq Y %s %s %s" % (J.dump(a), ";".join(rules) if rules else "-", ";".join(tags) if tags else "-"), {"kind": kind}))
 
+
+def const_members(a, conds):
+    """(tree with the first byte of every selected member name overwritten as the driver does,
+    number of selected members, number of members)"""
+    st = {"n": 0, "sel": 0, "tot": 0}
+
+    def flip(k):
+        return k if not k else (b"Y" if k[:1] == b"Z" else b"Z") + k[1:]
+
+    def go(x, depth):
+        if x is None:
+            return None
+        st["n"] += 1
+        if isinstance(x, list):
+            return [go(ch, depth + 1) for ch in x]
+        if is_obj(x):
+            ms = []
+            for k, ch in x[1]:
+                no = -1 if ch is None else st["n"]
+                ch2 = go(ch, depth + 1)
+                c = dict(n=no, type=type_char(ch), ptype="o", depth=depth + 1, idx=None, key=k)
+                st["tot"] += 1
+                if conds != "-" and any(cond_match(t, c) for t in conds.split(";")):
+                    st["sel"] += 1
+                    ms.append((flip(k), ch2))
+                else:
+                    ms.append((k, ch2))
+            return ("o", ms)
+        return x
+    t = go(a, 0)
+    return t, st["sel"], st["tot"]
+
+
+def gen_B(rng, out):
+    r = rng.random()
+    if r < 0.5:
+        a = add_texts(rng, small_tree(rng, 3, 4, nan=0.02), 0.3)
+    elif r < 0.9:
+        a = J.gen_tree(rng, depth=rng.choice([1, 2, 3, 4]), size=rng.choice([2, 4, 6]), nan=rng.random() < 0.1)
+    else:
+        a = ("o", [(k, rng.choice(S_INTS + S_STRS)) for k in rng.sample(J.KEY_EDGES, rng.randint(1, 8))])
+    if not any(is_obj(get(a, p)) and get(a, p)[1] for p in paths(a)):
+        a = ("o", [(b"alpha", a), (b"beta", ("o", [(b"gamma", ("i", 3))])), (b"", [a])])
+    r = rng.random()
+    if r < 0.35:
+        conds = "*"
+    elif r < 0.9:
+        conds = ";".join(gen_cond(rng, a) for _ in range(rng.randint(1, 3)))
+    else:
+        conds = "-"
+    out.append(("eq B %s %s %s" % (J.dump(a), conds, gen_mut(rng, a)), {"kind": "B-const-keys"}))
+
+
+B_EDGES = [
+    ("{616c706861=i1,62657461={67616d6d61=i3},64656c7461=s78}", "k616c706861;k62657461;k67616d6d61", "/k62657461:P7a=i9"),
+    ("{616c706861=i1,62657461={67616d6d61=i3},64656c7461=s78}", "-", ":K616c706861"), ("{61=i1}", "*", ":K61"), ("{-=i1}", "*", ":P-=n"),
+    ("{5a=i1,59=i2}", "*", ":K5a"), ("[{61={62={63=n}}}]", "*", "/i0/k61/k62:P64=t"), ("{61=i1,62=i2,63=i3}", "m2,1", ":P62=s78"),
+    ("{61=d7ff8000000000000}", "*", ":I1"), ("{}", "*", ":P61=i1"), ("[[],{}]", "*", ":A{61=n}"), ("i1", "*", ":I2"), ("n", "*", ":I2"),
+    ("{6b6b6b6b6b6b6b6b6b6b6b6b6b6b6b6b6b6b6b6b6b6b6b6b6b6b6b6b6b6b6b6b6b6b6b6b6b6b6b6b=s78}", "*", ":K6b"),
+]
 
 Y_EDGES = [
     # the documented use: tagged containers carried over by the callback
@@ -885,6 +957,11 @@ def gen(rng, tier):
         out.append(("eq Y %s %s %s" % (a, rules, tags), {"kind": "Y-edge"}))
     for _ in range(800 if q else 25000):
         gen_Y(rng, out)
+    # member names in caller-owned memory
+    for a, conds, mut in B_EDGES:
+        out.append(("eq B %s %s %s" % (a, conds, mut), {"kind": "B-edge"}))
+    for _ in range(500 if q else 15000):
+        gen_B(rng, out)
     return out
 
 
@@ -1101,6 +1178,56 @@ def oracle(line, meta, impl):
         if parts[2] != "live=0":
             return ("leak", "allocations left: " + parts[2])
         return None
+    if op == "B":
+        a = J.parse(f[2])[0]
+        conds, mut = f[3], f[4]
+        parts = impl.split(" | ")
+        if a is None:
+            if parts[0].split(" ")[:2] != ["B", "-1"]:
+                return ("copy-of-null", "deep copy of a NULL source did not fail: " + impl[:80])
+            return None if parts[-1] == "live=0" else ("leak", "allocations left: " + parts[-1])
+        h = parts[0].split(" ")
+        if len(h) >= 2 and h[0] == "B" and h[1] != "0":
+            return ("copy-failed", "deep copy failed: " + parts[0][:60])
+        if len(h) != 11 or live_of(parts[-1]) is None:
+            return ("malformed", "unexpected driver output: " + impl[:100])
+        ta = J.dump(canon(a))
+        flipped, nsel, ntot = const_members(a, conds)
+        nf = not has_nan(a)
+        eqs = bits(h[2:4])
+        if eqs is None:
+            return ("malformed", "unexpected driver output: " + impl[:100])
+        if h[4] != ta or h[6] != str(nsel) or h[7] != str(nsel):
+            return ("malformed", "source was not built as scripted: %s, %s buffers, %s constant names (expected %d)" % (h[4][:60], h[6], h[7], nsel))
+        if h[5] != ta:
+            return ("copy-dump-differs", "typed dump of the copy differs from the source: %s vs %s" % (h[5][:100], ta[:100]))
+        if nf and not all(eqs):
+            return ("copy-unequal", "deep copy of a NaN-free tree does not compare equal (%s %s)" % (h[2], h[3]))
+        if not nf and any(eqs):
+            return ("copy-nan-equal", "a tree containing a NaN compares equal to a different node")
+        if h[8] != "0" or h[9] != "0" or h[10] != "0":
+            return ("copy-shares-key-storage", "of the copy's member names %s are stored where a name of the source is, %s inside a caller buffer, "
+                    "%s are marked as not owned (source built with constant-key members %s)" % (h[8], h[9], h[10], conds[:40]))
+        if len(parts) != 5:
+            return ("malformed", "unexpected driver output: " + impl[:100])
+        st_i, st_f, st_p = [p.split(" ") for p in parts[1:4]]
+        if len(st_i) != 7 or len(st_f) != 7 or len(st_p) != 3 or st_i[0] != "I" or st_f[0] != "F" or st_p[0] != "P":
+            return ("malformed", "unexpected driver output: " + impl[:100])
+        if st_i[1] != J.dump(canon(flipped)):
+            return ("malformed", "source after the in-place change of the buffers: %s, expected %s" % (st_i[1][:80], J.dump(canon(flipped))[:80]))
+        want = "%s %d/%d %d %d 2" % (ta, ntot, ntot, nf, nf)
+        if " ".join(st_i[2:]) != want:
+            return ("key-buffer-change-reaches-copy", "after the caller changed its name buffers in place the copy reads [%s], expected [%s]"
+                    % (" ".join(st_i[2:])[:120], want[:120]))
+        if st_f[1] != "1" or " ".join(st_f[2:]) != want:
+            return ("destroy-reaches-copy", "after the source was destroyed and the caller's name buffers freed the copy reads [%s] (put=%s), expected [%s]"
+                    % (" ".join(st_f[2:])[:120], st_f[1], want[:120]))
+        ok, am = py_mutate(a, mut)
+        if st_p[1] != ("ok" if ok else "bad") or st_p[2] != J.dump(canon(am)):
+            return ("mutation-result", "mutation %s of the copy gave %s %s" % (mut[:60], st_p[1], st_p[2][:80]))
+        if parts[-1] != "live=0":
+            return ("leak", "allocations left: " + parts[-1])
+        return None
     if op == "Y":
         a = J.parse(f[2])[0]
         rules, tags = f[3], f[4]
@@ -1179,7 +1306,7 @@ def shrink(ck, line, cls):
     if op == "Y":
         line = shrink_rules(ck, line, cls)
         f = line.split(" ")
-    ntrees = {"E": 2, "T": 3, "X": 1, "C": 1, "Y": 1}[op]
+    ntrees = {"E": 2, "T": 3, "X": 1, "C": 1, "Y": 1, "B": 1}[op]
     trees = [J.parse(x)[0] for x in f[2:2 + ntrees]]
     tail = f[2 + ntrees:]
     budget = [70]
